@@ -15,7 +15,7 @@ TOK = {"int": 1, "none": None}
 # ------------------------------------------------------------------------------ behaviours from TLC
 def mc_cfg(rate=0, depth=8, frames=3, throw=True, devs=None, invariants=True, emit=False, view=True, alphabet="MC", delegate=True):
     devs = devs or {}
-    names = ["Dev_ReturnConst", "Dev_AwaitIsYield", "Dev_ThrowIsYield", "Dev_Resample"]
+    names = ["Dev_ReturnConst", "Dev_AwaitIsYield", "Dev_ThrowIsYield", "Dev_Resample", "Dev_AgenWrapped"]
     lines = ["SPECIFICATION Spec", "CONSTANTS", "  Funcs <- Funcs" + alphabet, "  Kind <- Kind" + alphabet,
              "  Wanted <- Wanted" + alphabet, "  Vals <- Vals" + alphabet, "  MaxFrames = %d" % frames, "  MaxDepth = %d" % depth, "  Rate = %d" % rate,
              "  AllowThrow = %s" % ("TRUE" if throw else "FALSE"), "  AllowDrop = %s" % ("TRUE" if throw else "FALSE"),
@@ -121,7 +121,7 @@ def build_actions(hist, rng, env, rich=None, admit=None, force=None, twin_reject
                 kwargs = {k: val("none") for k in t.get("extra_kw", [])}
             if t.get("noargs"):
                 args = []
-            kind = {"F": "plain", "U": "plain", "G": "gen", "C": "coro"}[h["f"]]
+            kind = {"F": "plain", "U": "plain", "G": "gen", "C": "coro", "A": "agen"}[h["f"]]
             wanted = t["wanted"] and (admit is None or t["sigfunc"]().__code__.co_qualname in admit)
             wanted = wanted and not (twin_rejected and t["name"].startswith("twin "))
             acts.append({"op": op, "f": t["canon"], "kind": kind, "wanted": wanted, "target": t["name"],
@@ -258,7 +258,7 @@ def token_of(ty):
     if ty["k"] == "absent":
         return "ABSENT"
     if ty["k"] == "cls":
-        return {"int": "int", "NoneType": "none"}.get(ty["n"], ty["n"])
+        return {"int": "int", "NoneType": "none", "async_generator_wrapped_value": "agwrap"}.get(ty["n"], ty["n"])
     return ty["k"]
 
 
@@ -296,9 +296,9 @@ def drifted(rec, pred):
 
 
 # ------------------------------------------------------------------------------ checks
-DEV_NAMES = ["Dev_ReturnConst", "Dev_AwaitIsYield", "Dev_ThrowIsYield", "Dev_Resample"]
+DEV_NAMES = ["Dev_ReturnConst", "Dev_AwaitIsYield", "Dev_ThrowIsYield", "Dev_Resample", "Dev_AgenWrapped"]
 C02_CLAUSES = {"ArgNames", "ArgTypes", "ReturnAbsentOnException", "ReturnPresent", "ReturnType", "YieldsOnly",
-               "YieldsCovered", "SpuriousLog", "MissingOrOutOfOrder", "MissingLog", "Residue", "OnlyAdmitted", "Escaped"}
+               "YieldsCovered", "AsyncGenYieldsOnly", "AsyncGenYieldsCovered", "SpuriousLog", "MissingOrOutOfOrder", "MissingLog", "Residue", "OnlyAdmitted", "Escaped"}
 
 
 def scenario_signature(rec, sc, clause):
@@ -323,6 +323,8 @@ def scenario_signature(rec, sc, clause):
             # recognised by its precondition - some generator / coroutine frame received more than one call event
             sig["rng_unscripted"] = True
             late = len(first) > 0 and any(sum(1 for h in sc["hist"] if x in (h.get("ch") or [])) > 1 for x in first)
+        if clause in ("AsyncGenYieldsOnly", "AsyncGenYieldsCovered"):
+            sig["clause"] = "FaithfulAsyncGen"
         if clause in ("ArgNames", "ArgTypes", "ReturnAbsentOnException", "ReturnPresent", "ReturnType", "YieldsOnly", "YieldsCovered") and sc["rate"] > 1:
             # which completed call a distorted entry is compared with is ambiguous under sampling
             sig["clause"] = "Faithful"
@@ -531,6 +533,14 @@ def main(pid, tier, seed, replay=None):
         tlc.check_ok(mc, "MTTracerMC design")
         if mc.invariant_violated:
             raise tlc.TLCFailure("MTTracerMC: design-level invariant violated: %s" % mc.invariant_violated)
+        # ... and over all five kinds of function (plain, filtered, generator, coroutine, async generator), one level less deep
+        mc5 = tlc.run_tlc("MTTracerMC", cfg_text=mc_cfg(rate_model, 7 if q else 8, 3, True, {}, True, False, True, alphabet="All"),
+                          workers=16, timeout=7200, xmx="24g")
+        tlc.check_ok(mc5, "MTTracerMC design (all kinds)")
+        if mc5.invariant_violated:
+            raise tlc.TLCFailure("MTTracerMC (all kinds): design-level invariant violated: %s" % mc5.invariant_violated)
+        mc.distinct += mc5.distinct
+        mc.generated += mc5.generated
         # 2. behaviours of the model as the code is: exhaustive paths to a small depth, simulation beyond
         d_bfs = (3 if sampled else 4) if q else (4 if sampled else 5)   # depth 6 / sampled depth 5 exceed memory (>1.3M paths)
         beh1, r1 = tlc_behaviours(rate_model, d_bfs, 3, devs, throw=not sampled)
@@ -541,9 +551,14 @@ def main(pid, tier, seed, replay=None):
             plan.append({"family": "all maximal paths over {plain function, generator} to depth %d: resume / throw / drop / "
                                    "call-right-after-drop (exhaustive)" % d_gf, "behaviours": len(beh3)})
             beh1 = beh1 + beh3
+            d_af = 6 if q else 7
+            beh4, _ = tlc_behaviours(rate_model, d_af, 3, devs, alphabet="AF", throw=False)
+            plan.append({"family": "all maximal paths over {plain function, async generator} to depth %d: yield / await / rebind / "
+                                   "raise (exhaustive)" % d_af, "behaviours": len(beh4)})
+            beh1 = beh1 + beh4
         nsim = (12000 if sampled else 4000) if q else 60000
         beh2, r2 = tlc_behaviours(rate_model, 12 if q else 16, 4, devs, simulate="num=%d" % nsim, seed=seed + 1,
-                                  throw=not sampled)
+                                  throw=not sampled, alphabet="All")
         plan.append({"family": "random behaviours of MTTracer, depth %d, 4 frames (simulation)" % (12 if q else 16),
                      "behaviours": len(beh2)})
         if len(beh2) > nsim:
